@@ -513,3 +513,236 @@ def run_registry_histories(payload):
     for hist in payload["histories"]:
         out.append({"cached": _one_registry_history(hist, True), "uncached": _one_registry_history(hist, False)})
     return {"results": out}
+
+
+# ------------------------------------------------------------------------------------------------
+# Butler-level histories WITH a model (coq/Model/CacheButler.v): fixed dataset ids, single-file and disassembled
+# (multi-file) datasets, two clients with their own expiry configuration on ONE cache directory, virtual clock
+# ------------------------------------------------------------------------------------------------
+COMPS = ["a", "b", "c"]          # component name -> index 1..3 in the cache key 4 * dataset + index (0 = not a component)
+_XTYPES = {1: "c17x1", 2: "c17x2", 3: "c17x3"}
+
+
+def _c17_delegate_class():
+    from lsst.daf.butler import StorageClassDelegate
+    from lsst.daf.butler.datastore.generic_base import DatasetComponent  # noqa: F401
+
+    return StorageClassDelegate
+
+
+try:
+    from lsst.daf.butler import StorageClassDelegate as _SCD
+
+    class C17Delegate(_SCD):
+        """dict-of-dicts composite; components are written in the FIXED order a, b, c (the generic implementation walks
+        a `set`, whose order changes from process to process)"""
+
+        def getComponent(self, composite, componentName):
+            return composite[componentName]
+
+        def assemble(self, components, pytype=None):
+            return {k: components[k] for k in sorted(components)}
+
+        def disassemble(self, composite, subset=None, override=None):
+            from lsst.daf.butler import DatasetComponent
+            out = {}
+            for name in sorted(self.storageClass.components):
+                out[name] = DatasetComponent(name, self.storageClass.components[name], composite[name])
+            return out
+except Exception:  # noqa: BLE001   (import of the package failed: the worker will report it on first use)
+    C17Delegate = None
+
+
+def _register_storage_classes():
+    from lsst.daf.butler import StorageClass, StorageClassFactory
+    f = StorageClassFactory()
+    sd = f.getStorageClass("StructuredDataDict")
+    for n in (2, 3):
+        name = f"C17Comp{n}"
+        if name not in f:
+            f.registerStorageClass(StorageClass(name, pytype=dict, components={c: sd for c in COMPS[:n]},
+                                                delegate="harness.impl.c17_impl.C17Delegate"))
+
+
+def _xkey_of_name(name):
+    stem, _ext = name.split(".", 1)
+    parts = stem.split("_")
+    d = uuid.UUID(parts[0]).int - 1
+    return 4 * d + (COMPS.index(parts[1]) + 1 if len(parts) > 1 else 0)
+
+
+def _xlisting(cdir, clock=None):
+    out = []
+    for fn in sorted(os.listdir(cdir)):
+        p = os.path.join(cdir, fn)
+        if os.path.isdir(p):
+            continue
+        try:
+            if clock is not None:
+                clock.observe(p)
+            out.append([_xkey_of_name(fn), os.path.getsize(p)])
+        except (ValueError, FileNotFoundError):
+            out.append([-1, 0])
+    out.sort()
+    return out
+
+
+def _tick_before_cache_calls(cmgr, clock, cdir):
+    """One (virtual) second passes before every move_to_cache / find_in_cache, as in coq/Model/CacheButler.v `cstep`: no two
+    cache files ever carry the same ctime (files of equal ctime are expired in the order of a directory walk)."""
+    orig_move, orig_find = cmgr.move_to_cache, cmgr.find_in_cache
+
+    def move_to_cache(uri, ref):
+        _xlisting(cdir, clock)      # stamp what changed so far with the time at which it changed
+        clock.v += 1
+        time.sleep(0.012)
+        return orig_move(uri, ref)
+
+    def find_in_cache(ref, extension):
+        _xlisting(cdir, clock)
+        clock.v += 1
+        time.sleep(0.012)
+        return orig_find(ref, extension)
+
+    cmgr.move_to_cache = move_to_cache
+    cmgr.find_in_cache = find_in_cache
+
+
+def _one_butlerx_history(hist, top, tag, cfgs, clock):
+    from lsst.daf.butler import Butler, Config, DatasetRef
+
+    root = os.path.join(top, f"repo-{tag}")
+    cdir = os.path.join(top, f"cache-{tag}")
+    os.makedirs(cdir, exist_ok=True)
+    cfg = Config()
+    cfg["datastore", "cls"] = "lsst.daf.butler.datastores.fileDatastore.FileDatastore"
+    cfg["datastore", "root"] = f"mem://store-{tag}/"
+    fmt = "lsst.daf.butler.formatters.yaml.YamlFormatter"
+    cfg["datastore", "formatters"] = {"StructuredDataDict": fmt, "StructuredDataList": fmt}
+    cfg["datastore", "composites"] = {"default": False, "disassembled": {"C17Comp2": True, "C17Comp3": True}}
+    cfg["datastore", "cached"] = _butler_config(cdir, *cfgs[0])[("datastore", "cached")]
+    Butler.makeRepo(root, config=cfg, forceConfigRoot=False)
+    clients = [Butler.from_config(root, writeable=True)]
+    # the second client: same repository, same cache directory, its own expiry configuration
+    cfg_b = Config(os.path.join(root, "butler.yaml"))
+    cfg_b["datastore", "cached"] = _butler_config(cdir, *cfgs[1])[("datastore", "cached")]
+    cfg_b["root"] = root
+    clients.append(Butler.from_config(cfg_b, writeable=True))
+    b0 = clients[0]
+    for c in clients:
+        _tick_before_cache_calls(c._datastore.cacheManager, clock, cdir)
+    fixture.add_instrument(b0, "Cam", detectors=tuple(range(8)))
+    fixture.add_dataset_type(b0, _XTYPES[1])
+    for n in (2, 3):
+        fixture.add_dataset_type(b0, _XTYPES[n], storage_class=f"C17Comp{n}")
+    b0.registry.registerRun("c17run")
+    for c in clients:
+        c.registry.refresh()
+    dids = {d: b0.registry.expandDataId(instrument="Cam", detector=d) for d in range(8)}
+    dtypes = {n: b0.get_dataset_type(_XTYPES[n]) for n in (1, 2, 3)}
+    nfiles = {}           # dataset -> number of files of its current / last incarnation
+    sizes = {}            # (dataset, component index, pad) -> size of the file written with that content
+    steps = []
+
+    def ref_of(d, n):
+        return DatasetRef(dtypes[n], dids[d], run="c17run", id=uuid.UUID(int=d + 1))
+
+    try:
+        for op in hist["ops"]:
+            ob = {}
+            k = op["op"]
+            reads0 = _REMOTE_ROOT["reads"]
+            try:
+                if k == "put":
+                    d, pads = op["ds"], op["pads"]
+                    n = len(pads)
+                    fill = op.get("fill", "p")
+                    if n == 1:
+                        obj = {"ds": d, "pad": fill * pads[0]}
+                    else:
+                        obj = {COMPS[i]: {"ds": d, "pad": fill * pads[i]} for i in range(n)}
+                    clients[op["who"]].put(obj, ref_of(d, n))
+                    nfiles[d] = n
+                    ob["res"] = "ok"
+                    # the sizes of the files just written to the remote store: a file's size stands for its content
+                    uris = clients[op["who"]].getURIs(ref_of(d, n))
+                    if n == 1:
+                        files = [[0, int(uris.primaryURI.size())]]
+                    else:
+                        files = [[i + 1, int(uris.componentURIs[COMPS[i]].size())] for i in range(n)]
+                    for (ci_, sz), pad in zip(files, pads):
+                        sizes[(d, ci_, fill * pad)] = sz if fill == "p" else sz + 1000     # another fill = another content id
+                    ob["files"] = files
+                elif k == "get":
+                    d = op["ds"]
+                    n = nfiles.get(d, 1)
+                    val = clients[op["who"]].get(ref_of(d, n))
+                    parts = [[0, val]] if n == 1 else [[i + 1, val[COMPS[i]]] for i in range(n)]
+                    # content reported as the size of the file that was written with this content (-1: never written)
+                    ob["res"] = ["value", [[4 * d + ci_, sizes.get((d, ci_, v.get("pad", "")), -1) if v.get("ds") == d else -2]
+                                           for ci_, v in parts]]
+                elif k == "remove":
+                    d = op["ds"]
+                    clients[op["who"]].pruneDatasets([ref_of(d, nfiles.get(d, 1))], purge=True, unstore=True, disassociate=True)
+                    ob["res"] = "ok"
+                elif k == "tick":
+                    clock.v += max(0, int(op["dt"]))
+                    time.sleep(0.012)
+                    ob["res"] = "ok"
+                elif k == "ext_delete":
+                    key = op["key"]
+                    comp = "" if key % 4 == 0 else "_" + COMPS[key % 4 - 1]
+                    with contextlib.suppress(FileNotFoundError):
+                        os.remove(os.path.join(cdir, f"{uuid.UUID(int=key // 4 + 1)}{comp}.yaml"))
+                    ob["res"] = "ok"
+                elif k == "cache_wipe":
+                    for fn in os.listdir(cdir):
+                        p = os.path.join(cdir, fn)
+                        if os.path.isfile(p):
+                            os.remove(p)
+                    ob["res"] = "ok"
+                else:
+                    raise ValueError(k)
+            except Exception as e:  # noqa: BLE001
+                ob["res"] = "E:" + type(e).__name__
+                ob["msg"] = f"{type(e).__name__}: {str(e)[:160]}"
+            ob["remote_reads"] = _REMOTE_ROOT["reads"] - reads0
+            ob["cache"] = _xlisting(cdir, clock)
+            ob["mgr"] = []
+            for c in clients:
+                cmgr = c._datastore.cacheManager
+                ents = sorted([_xkey_of_name(kk), int(e.size)] for kk, e in cmgr._cache_entries.items()) if hasattr(cmgr, "_cache_entries") else []
+                ob["mgr"].append({"file_count": int(cmgr.file_count), "cache_size": int(cmgr.cache_size), "entries": ents})
+            ob["exempt"] = sorted(os.listdir(os.path.join(cdir, "exempt"))) if os.path.isdir(os.path.join(cdir, "exempt")) else []
+            steps.append(ob)
+    finally:
+        for c in clients:
+            with contextlib.suppress(Exception):
+                c.close()
+    return steps
+
+
+def run_butlerx_histories(payload):
+    """payload {histories: [{cfg: [[mode, thr], [mode, thr]], ops: [...]}]}
+    op = {who, op: put, ds, pads: [p] | [pa, pb] | [pa, pb, pc]} | {who, op: get|remove, ds} | {op: tick, dt}
+       | {op: ext_delete, key} | {op: cache_wipe}
+    returns {results: [{cached: steps, uncached: steps}]}; dataset d always has the id UUID(int=d+1), so a dataset removed
+    and put again keeps its cache file names"""
+    top = fixture.new_root("c17x")
+    _install_remote(os.path.join(top, "remote"))
+    _register_storage_classes()
+    clock = VClock()
+    _install_clock(clock)
+    results = []
+    try:
+        for hi, hist in enumerate(payload["histories"]):
+            clock.v = 0
+            clock.table.clear()
+            cached = _one_butlerx_history(hist, top, f"c{hi}", hist["cfg"], clock)
+            clock.v = 0
+            clock.table.clear()
+            uncached = _one_butlerx_history(hist, top, f"u{hi}", [["disabled", 0], ["disabled", 0]], clock)
+            results.append({"cached": cached, "uncached": uncached})
+        return {"results": results}
+    finally:
+        shutil.rmtree(top, ignore_errors=True)
